@@ -312,6 +312,16 @@ bool prop(Tape &t, Report &R) {
     if (!out.error.empty())
       return R.fail("on a circuit object placed before with its fixed cells elsewhere, then set to these contents with " + route + ": " + out.error + " " + s2.json());
   }
+  // a degenerate companion: rows cut into many short segments by tap cells
+  if (hw % 16 == 3) {
+    CircuitSpec comb = genCombCircuit(hw);
+    R.classify("shape:rows-cut-into-17+-segments");
+    DetailedObserver ob6;
+    ob6.checkLegality = true;
+    TopLevelOutcome out = runTopLevel(comb, params, ob6, false);
+    if (out.discarded) return true;
+    if (!out.error.empty()) return R.fail(out.error + " " + comb.json());
+  }
   // a degenerate companion: rows completely covered by an obstruction and by multi-row cells
   if (hw % 16 == 2) {
     CircuitSpec cov = genCoveredCircuit(hw);
